@@ -8,6 +8,7 @@ difference and is read only in Arena::capacity.  with_capacity/reserve are the V
 """
 from vlib import facts, rules, typeclosure, e2props
 from vlib.report import Run
+from vlib import controls
 
 AMBIENT = ("std::time", "core::time::Instant", "std::env", "std::thread", "std::process", "std::fs", "std::net", "std::io::stdin", "RandomState", "std::collections::hash",
            "hashbrown", "rand::", "rand_core", "getrandom", "std::sync::atomic", "core::sync::atomic", "std::sync::Mutex", "std::sync::RwLock", "thread_local", "std::sys", "core::hint::black_box",
@@ -107,6 +108,7 @@ def main(tier):
                 org = rules.origin(prog, f, t["args"][-1])
                 run.ob("capacity", "Arena::%s forwards its size argument" % name, any(o[0] == "arg" for o in org) and not any(o[0] == "const" for o in org),
                        key="capacity|Arena::%s does not forward its argument" % name, detail=sorted(map(str, org)))
+    controls.selftest(run, ['ambient call (time)', 'atomic call', 'static item', 'pointer->integer cast', 'interior mutability in a field'])
     run.extra["written_argument"] = ("No ambient state + no interior mutability (C18) + single-threaded &mut access => every call is a function of (arguments, Arena fields); by induction two arenas "
                                      "built by the same calls are field-wise equal (derived PartialEq) and issue the same ids. A derived Clone of plain owned data is equal and shares no storage. "
                                      "clear() leaves exactly the field values of a fresh arena (all fields compared), capacity excepted, and capacity is observable only through capacity().")
